@@ -14,9 +14,10 @@ from collections import defaultdict, deque
 # --------------------------------------------------------------------------------------------
 
 class Call:
-    __slots__ = ("fn", "bb", "f", "args", "dest", "target", "ln")
+    __slots__ = ("fn", "bb", "f", "args", "dest", "target", "ln", "ctx_locals")
 
     def __init__(self, fn, bb, term):
+        self.ctx_locals = None      # locals of the view under construction (set by the inliner)
         self.fn = fn
         self.bb = bb
         self.f = term["f"]
